@@ -134,10 +134,20 @@ fn dump_real_tree(dir: &StdPath, prefix: &str, out: &mut Vec<String>) {
         } else if md.is_file() {
             let c = std::fs::read(e.path()).unwrap_or_default();
             out.push(format!("{key}:reg:{mode:o}:{}", enc_bytes(&c)));
+        } else if md.file_type().is_symlink() {
+            let t = std::fs::read_link(e.path()).map(|t| t.to_string_lossy().into_owned()).unwrap_or_default();
+            out.push(format!("{key}:link:{}", enc_str(&t)));
         } else {
             out.push(format!("{key}:other:{mode:o}:-"));
         }
     }
+}
+
+/// symbolic links added to the shell-level tree when the script mentions them (`lnk…` names)
+const LINKS: [(&str, &str); 4] = [("lnkf", "f1"), ("lnkd", "d1"), ("lnkloop", "lnkloop"), ("lnkbad", "nofile")];
+
+fn wants_links(script: &str) -> bool {
+    script.contains("lnk")
 }
 
 fn dump_virtual_tree(inode: &Rc<RefCell<Inode>>, prefix: &str, skip_top: &[&str], out: &mut Vec<String>) {
@@ -158,6 +168,10 @@ fn dump_virtual_tree(inode: &Rc<RefCell<Inode>>, prefix: &str, skip_top: &[&str]
                 dump_virtual_tree(child, &key, skip_top, out);
             }
             FileBody::Regular { content, .. } => out.push(format!("{key}:reg:{mode:o}:{}", enc_bytes(content))),
+            FileBody::Symlink { target } => {
+                let t = String::from_utf8_lossy(target.as_unix_str().as_bytes()).into_owned();
+                out.push(format!("{key}:link:{}", enc_str(&t)))
+            }
             _ => out.push(format!("{key}:other:{mode:o}:-")),
         }
     }
@@ -511,6 +525,23 @@ fn seq_virtual(limit: u64, ops: &[&str]) -> String {
 
 const RESULT_FD: i32 = 300;
 
+static REAL_CHILDREN: std::sync::atomic::AtomicUsize = std::sync::atomic::AtomicUsize::new(0);
+static REAL_PROC_CHILDREN: std::sync::atomic::AtomicUsize = std::sync::atomic::AtomicUsize::new(0);
+
+/// How a forked real-leg child leaves.  Normally `_exit` (nothing of the harness's own state is
+/// flushed twice).  In a coverage-instrumented run (`LLVM_PROFILE_FILE` set by tools/coverage.py) the
+/// first 400 children of each real leg leave through `exit`, so that the profile runtime's atexit hook writes their
+/// counters: otherwise everything the real leg executes (real.rs, real/*.rs) would be invisible to
+/// the coverage measurement.  One profile file per such child, hence the cap.
+fn leave_child(ordinal: usize) -> ! {
+    if ordinal < 400 && std::env::var_os("LLVM_PROFILE_FILE").is_some() {
+        // SAFETY: single-threaded child; stdout was flushed before the fork
+        unsafe { libc::exit(0) }
+    }
+    // SAFETY: plain _exit
+    unsafe { libc::_exit(0) }
+}
+
 fn seq_real(limit: u64, ops: &[&str]) -> String {
     let scratch = Scratch::new();
     let root = scratch.root();
@@ -530,6 +561,7 @@ fn seq_real(limit: u64, ops: &[&str]) -> String {
     std::io::stdout().flush().unwrap();
     // SAFETY: the harness is single-threaded; the child only uses async-signal-unsafe functions of
     // its own copy of the address space and leaves through _exit
+    let ordinal = REAL_CHILDREN.fetch_add(1, std::sync::atomic::Ordering::Relaxed);
     let pid = unsafe { libc::fork() };
     assert!(pid >= 0, "fork failed");
     if pid == 0 {
@@ -566,8 +598,8 @@ fn seq_real(limit: u64, ops: &[&str]) -> String {
                 }
                 off += n as usize;
             }
-            libc::_exit(0);
         }
+        leave_child(ordinal);
     }
     // ---- parent
     unsafe { libc::close(pipe_fds[1]) };
@@ -822,7 +854,7 @@ impl Gen {
             }
             86..=88 => {
                 let opts: Vec<&'static str> = match self.cwd.as_slice() {
-                    [] => vec!["d1", "d2", "d1/dd", "f1", "nodir", ".", "..", "d1/..", "f1/.", "f1/..", "d1/dd/.."],
+                    [] => vec!["d1", "d2", "d1/dd", "f1", "nodir", ".", "..", "d1/..", "f1/.", "f1/..", "d1/dd/..", "./d1", "./d1/./dd"],
                     ["d1"] => vec!["dd", "g", "nodir", "..", ".", "dd/..", "g/..", "../d2"],
                     ["d1", "dd"] => vec!["nodir", "..", ".", "../..", "../g"],
                     _ => vec!["nodir", "g", "..", "."],
@@ -830,6 +862,11 @@ impl Gen {
                 let p = *self.rng.pick(&opts);
                 match p {
                     "d1" | "d2" | "dd" => self.cwd.push(p),
+                    "./d1" => self.cwd.push("d1"),
+                    "./d1/./dd" => {
+                        self.cwd.push("d1");
+                        self.cwd.push("dd");
+                    }
                     "d1/dd" => {
                         self.cwd.push("d1");
                         self.cwd.push("dd");
@@ -987,12 +1024,22 @@ fn gen_seq(rng: &mut Rng, class: &'static str, thorough: bool) -> String {
 // An operation that does not return (the process is terminated by the signal) leaves no token; a
 // terminated P0 ends the observation with `DIED:s<SIG>`, otherwise the final state of P0 follows `|`.
 
-const PSIGS: [&str; 7] = ["HUP", "INT", "USR1", "USR2", "TERM", "CHLD", "URG"];
+/// in increasing Linux signal number
+const PSIGS: [&str; NSIG] =
+    ["HUP", "INT", "QUIT", "KILL", "USR1", "USR2", "PIPE", "ALRM", "TERM", "CHLD", "URG", "WINCH"];
+const NSIG: usize = 12;
+const I_KILL: usize = 3;
+const I_CHLD: usize = 9;
 
 fn signum<S: yash_env::system::Signals>(name: &str) -> Option<yash_env::signal::Number> {
     Some(match name {
         "HUP" => S::SIGHUP,
         "INT" => S::SIGINT,
+        "QUIT" => S::SIGQUIT,
+        "KILL" => S::SIGKILL,
+        "PIPE" => S::SIGPIPE,
+        "ALRM" => S::SIGALRM,
+        "WINCH" => S::SIGWINCH,
         "USR1" => S::SIGUSR1,
         "USR2" => S::SIGUSR2,
         "TERM" => S::SIGTERM,
@@ -1325,6 +1372,7 @@ fn proc_real(ops: &[String]) -> String {
     use std::io::Write as _;
     std::io::stdout().flush().unwrap();
     // SAFETY: the harness is single-threaded; the child leaves through _exit
+    let ordinal = REAL_PROC_CHILDREN.fetch_add(1, std::sync::atomic::Ordering::Relaxed);
     let pid = unsafe { libc::fork() };
     assert!(pid >= 0, "fork failed");
     if pid == 0 {
@@ -1337,7 +1385,7 @@ fn proc_real(ops: &[String]) -> String {
         if r.is_err() {
             raw_write(" PANIC");
         }
-        unsafe { libc::_exit(0) };
+        leave_child(ordinal);
     }
     unsafe { libc::close(pipe_fds[1]) };
     let mut text = String::new();
@@ -1370,18 +1418,19 @@ fn proc_real(ops: &[String]) -> String {
 
 #[derive(Clone)]
 struct SimProc {
-    mask: [bool; 7],
-    pend: [bool; 7],
-    disp: [u8; 7], // b'd', b'i', b'c'
-    caught: [bool; 7],
+    mask: [bool; NSIG],
+    pend: [bool; NSIG],
+    disp: [u8; NSIG], // b'd', b'i', b'c'
+    caught: [bool; NSIG],
     alive: bool,
 }
 
-const DEFAULT_IGNORED: [bool; 7] = [false, false, false, false, false, true, true];
+const DEFAULT_IGNORED: [bool; NSIG] =
+    [false, false, false, false, false, false, false, false, false, true, true, true];
 
 impl SimProc {
     fn new() -> SimProc {
-        SimProc { mask: [false; 7], pend: [false; 7], disp: [b'd'; 7], caught: [false; 7], alive: true }
+        SimProc { mask: [false; NSIG], pend: [false; NSIG], disp: [b'd'; NSIG], caught: [false; NSIG], alive: true }
     }
     fn deadly(&self, s: usize) -> bool {
         self.disp[s] == b'd' && !DEFAULT_IGNORED[s]
@@ -1398,6 +1447,8 @@ impl SimProc {
     }
     fn generate(&mut self, s: usize) {
         if !self.alive {
+        } else if s == I_KILL {
+            self.alive = false;
         } else if self.mask[s] {
             self.pend[s] = true;
         } else {
@@ -1405,7 +1456,7 @@ impl SimProc {
         }
     }
     fn flush(&mut self) {
-        for s in 0..7 {
+        for s in 0..NSIG {
             if self.alive && self.pend[s] && !self.mask[s] {
                 self.pend[s] = false;
                 self.deliver(s);
@@ -1413,30 +1464,36 @@ impl SimProc {
         }
     }
     fn would_die_on(&self, s: usize) -> bool {
-        !self.mask[s] && self.deadly(s)
+        s == I_KILL || !self.mask[s] && self.deadly(s)
     }
     fn fork(&self) -> SimProc {
-        SimProc { mask: self.mask, pend: [false; 7], disp: self.disp, caught: [false; 7], alive: true }
+        SimProc { mask: self.mask, pend: [false; NSIG], disp: self.disp, caught: [false; NSIG], alive: true }
     }
 }
 
-fn names_of(set: &[bool; 7]) -> String {
-    let v: Vec<&str> = (0..7).filter(|i| set[*i]).map(|i| PSIGS[i]).collect();
+fn names_of(set: &[bool; NSIG]) -> String {
+    let v: Vec<&str> = (0..NSIG).filter(|i| set[*i]).map(|i| PSIGS[i]).collect();
     if v.is_empty() { "-".to_string() } else { v.join("+") }
 }
 
 /// one operation for process `me` (`parent` = Some while `me` is the forked child); None = nothing suitable
 fn gen_sig_op(rng: &mut Rng, me: &mut SimProc, parent: Option<&mut SimProc>, allow_kgrp: bool) -> Option<String> {
-    let s = rng.below(7);
-    let name = PSIGS[s];
+    // SIGKILL can only be sent (by a child to itself): it is never put into a mask or given a disposition
+    let pick = |rng: &mut Rng| loop {
+        let s = rng.below(NSIG);
+        if s != I_KILL {
+            break s;
+        }
+    };
+    let mut s = pick(rng);
     let in_child = parent.is_some();
     Some(match rng.below(100) {
         0..=13 => {
-            let mut set = [false; 7];
+            let mut set = [false; NSIG];
             for _ in 0..1 + rng.below(3) {
-                set[rng.below(7)] = true;
+                set[pick(rng)] = true;
             }
-            for i in 0..7 {
+            for i in 0..NSIG {
                 me.mask[i] |= set[i];
             }
             format!("blk {}", names_of(&set))
@@ -1445,16 +1502,16 @@ fn gen_sig_op(rng: &mut Rng, me: &mut SimProc, parent: Option<&mut SimProc>, all
             // SIG_UNBLOCK / SIG_SETMASK.  Two pending signals that would both terminate the process are never
             // unblocked together: which one is reported depends on the signal numbering, which POSIX leaves open.
             let setmask = rng.chance(1, 3);
-            let mut set = [false; 7];
+            let mut set = [false; NSIG];
             for _ in 0..1 + rng.below(3) {
-                set[rng.below(7)] = true;
+                set[pick(rng)] = true;
             }
             let mut new_mask = me.mask;
-            for i in 0..7 {
+            for i in 0..NSIG {
                 new_mask[i] = if setmask { set[i] } else { me.mask[i] && !set[i] };
             }
             let mut deadly_seen = false;
-            for i in 0..7 {
+            for i in 0..NSIG {
                 if me.pend[i] && !new_mask[i] && me.deadly(i) {
                     if deadly_seen {
                         new_mask[i] = true;
@@ -1472,6 +1529,7 @@ fn gen_sig_op(rng: &mut Rng, me: &mut SimProc, parent: Option<&mut SimProc>, all
         }
         29..=45 => {
             let d = *rng.pick(&[b'd', b'i', b'c', b'c']);
+            let name = PSIGS[s];
             if name == "CHLD" && d == b'i' {
                 return None; // SIG_IGN for SIGCHLD makes the kernel reap children itself: `wait` is not comparable
             }
@@ -1483,14 +1541,19 @@ fn gen_sig_op(rng: &mut Rng, me: &mut SimProc, parent: Option<&mut SimProc>, all
             me.disp[s] = d;
             format!("act {name} {}", d as char)
         }
-        46..=49 => format!("get {name}"),
+        46..=49 => format!("get {}", PSIGS[s]),
         50..=70 => {
+            if in_child && rng.chance(1, 12) {
+                s = I_KILL;
+            }
+            let name = PSIGS[s];
             if me.would_die_on(s) && !rng.chance(1, if in_child { 5 } else { 14 }) {
                 return None;
             }
             let kind = match (rng.below(10), &parent) {
                 (0..=5, _) => "raise",
                 (6..=7, _) => "kself",
+                _ if s == I_KILL => "kself",
                 (8, Some(p)) if !p.would_die_on(s) => "kpar",
                 // kill(0, …) also reaches terminated (reaped) members of the group on the simulator, changing their
                 // state and sending the parent another SIGCHLD: divergence D16 (see notes/C19.md); only used
@@ -1514,7 +1577,7 @@ fn gen_sig_op(rng: &mut Rng, me: &mut SimProc, parent: Option<&mut SimProc>, all
         71..=80 => "pend".to_string(),
         81..=86 => "mask".to_string(),
         _ => {
-            me.caught = [false; 7];
+            me.caught = [false; NSIG];
             "caught".to_string()
         }
     })
@@ -1531,12 +1594,12 @@ fn gen_proc(rng: &mut Rng, thorough: bool) -> String {
             if p0.caught.iter().any(|c| *c) {
                 // an uncollected catch record is copied into the child by RealSystem (user-space record):
                 // divergence D14 (see notes/C19.md); collect it first
-                p0.caught = [false; 7];
+                p0.caught = [false; NSIG];
                 ops.push("caught".to_string());
             }
             if rng.chance(1, 2) {
                 // make sure the parent often has a blocked, pending signal when it forks
-                let s = rng.below(7);
+                let s = [0usize, 1, 2, 4, 5, 6, 7, 8, 9, 10, 11][rng.below(11)];
                 p0.mask[s] = true;
                 p0.generate(s);
                 ops.push(format!("blk {}", PSIGS[s]));
@@ -1561,7 +1624,7 @@ fn gen_proc(rng: &mut Rng, thorough: bool) -> String {
             if child.alive && rng.chance(1, 2) {
                 cops.push(format!("exit {}", rng.below(4)));
             }
-            p0.generate(5); // SIGCHLD
+            p0.generate(I_CHLD); // SIGCHLD
             ops.push(format!("fork[{}]", cops.join(", ")));
         } else if let Some(op) = gen_sig_op(rng, &mut p0, None, forks == 0) {
             ops.push(op);
@@ -1653,6 +1716,12 @@ fn shell_virtual(script: &str) -> String {
     let system = VirtualSystem::new();
     let state = Rc::clone(&system.state);
     populate_virtual(&state, "", true);
+    if wants_links(script) {
+        for (name, target) in LINKS {
+            let inode = Inode { body: FileBody::Symlink { target: target.into() }, permissions: Mode::from_bits_retain(0o777) };
+            state.borrow_mut().file_system.save(format!("/{name}").as_str(), Rc::new(RefCell::new(inode))).unwrap();
+        }
+    }
     system.current_process_mut().chdir("/".into());
     let executor = yash_executor::Executor::new();
     state.borrow_mut().executor = Some(Rc::new(executor.spawner()));
@@ -1705,6 +1774,11 @@ fn shell_real(script: &str) -> String {
     let scratch = Scratch::new();
     let root = scratch.root();
     populate_real(&root, true);
+    if wants_links(script) {
+        for (name, target) in LINKS {
+            std::os::unix::fs::symlink(target, root.join(name)).unwrap();
+        }
+    }
     let root_str = std::fs::canonicalize(&root).unwrap().to_string_lossy().into_owned();
     let mut cmd = std::process::Command::new(yash3_path());
     cmd.arg("-c").arg(script).current_dir(&root).env_clear();
@@ -1714,6 +1788,8 @@ fn shell_real(script: &str) -> String {
     unsafe {
         cmd.pre_exec(|| {
             libc::umask(0o644);
+            // own process group: `kill -s SIG 0` in a script must reach the script's processes only
+            libc::setpgid(0, 0);
             Ok(())
         });
     }
@@ -1803,7 +1879,7 @@ fn run_shell_case(tag: &str, script: &str) {
 /// (tag, script template); `%` is replaced by a per-instance suffix.  Tag `clean` = no catalogued
 /// divergence is involved.  Only built-ins of the real binary are used (`alias` without aliases is
 /// the do-nothing regular built-in, `typeset -p` the printer).
-const FRAGMENTS: [(&str, &str); 75] = [
+const FRAGMENTS: [(&str, &str); 83] = [
     ("clean", "x%=one; typeset -p x% >o%; x%=two; typeset -p x% >o%; read -r l <o%; typeset -p l"),
     ("clean", "x%=ap; typeset -p x% >>a%; x%=bp; typeset -p x% >>a%; umask >>a%"),
     ("clean", "set -C; alias >f1; s=$?; typeset -p s; typeset -p s >|f1; alias >n%; set +C; read -r l <f1; typeset -p l"),
@@ -1879,6 +1955,14 @@ const FRAGMENTS: [(&str, &str); 75] = [
     ("clean", "trap '' USR1; (kill -s USR1 $$; typeset -p PWD >ig%); s=$?; typeset -p s; x%=$(kill -s USR1 $$; typeset -p PWD)$(typeset -p PWD); typeset -p x%; trap - USR1"),
     ("clean", "trap 'c%=chld' CHLD; (exit 2); (exit 3); s=$?; typeset -p s c%; trap - CHLD"),
     ("clean", "trap 'a%=1' USR1; trap 'b%=1' USR2; x%=$(kill -s USR1 $$; kill -s USR2 $$; typeset -p PWD)$( (typeset -p PWD) )$(typeset -p PWD | { read -r l; typeset -p l; }); s=$?; typeset -p s a% b% x%; trap - USR1 USR2"),
+    ("clean", "cd lnkd; s=$?; typeset -p s PWD; cd ..; typeset -p PWD; cd lnkloop; s=$?; typeset -p s; cd lnkbad; s=$?; typeset -p s; cd lnkf; s=$?; typeset -p s"),
+    ("clean", "for i in lnk* lnkz*; do typeset -p i; done"),
+    ("clean", "v%=xxxxxxxxxxxxxxxx; v%=$v%$v%$v%$v%; v%=$v%$v%$v%$v%; v%=$v%$v%$v%$v%; v%=$v%$v%; typeset -p v% | { read -r l; typeset -p l >big%; }; w%=$(typeset -p v%; typeset -p v%); s=${#w%}; typeset -p s"),
+    ("clean", "v%=0123456789abcdef; v%=$v%$v%$v%$v%$v%$v%$v%$v%; v%=$v%$v%$v%$v%$v%$v%$v%$v%; { typeset -p v%; typeset -p v%; typeset -p v%; } | { while read -r l; do n=${#l}; typeset -p n; done; }"),
+    ("clean", "(ulimit -n 4; typeset -p PWD | read x; s=$?; typeset -p s); (ulimit -n 3; y=$(typeset -p PWD); s=$?; typeset -p s y); s=$?; typeset -p s"),
+    ("clean", "kill -s USR1 999999; s=$?; typeset -p s; kill -s 0 $$; s=$?; typeset -p s; kill -s 0 999999; s=$?; typeset -p s"),
+    ("clean", "trap 'g%=1' USR1; kill -s USR1 0; typeset -p g%; trap 'h%=1' USR2; (trap '' USR2; kill -s USR2 0; exit 3); s=$?; typeset -p s h%; trap - USR1 USR2"),
+    ("clean", "trap 't%=1' TERM; (trap '' TERM; kill 0; exit 4) & wait $!; s=$?; wait $!; s=$?; typeset -p s t%; trap - TERM"),
 ];
 
 fn gen_script(rng: &mut Rng, allow_known: bool) -> (String, String) {
